@@ -210,7 +210,10 @@ FViols(arr, cfg) ==
   \cup (IF Through(a) /\ a.node # 0 /\ ~a.pNode /\ HasQ(nodeq) /\ ~LastWithin(nodeThrough(arr), nodeq) THEN {"C18.WindowNode"} ELSE {})
   \* (2) traffic that stays within every applicable quota is never refused: a refusal needs a ban, or traffic of the IP /
   \*     of the node id / in total that is not within its quota (the other refusal reason, max_nodes_per_ip, must be off)
-  \cup (IF refused1 /\ ~(a.bIp /\ ~a.pIp) /\ ~(~a.pIp /\ HasQ(ipq) /\ ~Within(ipAll, ipq)) /\ ~(~a.pIp /\ HasQ(totq) /\ ~Within(arr, totq))
+  \*     For the total quota the traffic that counts is what reaches the total limiter: datagrams turned away before it (banned IP, or
+  \*     refused for their IP's own excess - such a refusal enacts a ban) are not charged to everybody else (seed C18-2).
+  \cup (IF refused1 /\ ~(a.bIp /\ ~a.pIp) /\ ~(~a.pIp /\ HasQ(ipq) /\ ~Within(ipAll, ipq))
+           /\ ~(~a.pIp /\ HasQ(totq) /\ ~Within(SelectSeq(arr, LAMBDA x : ~(x.s1 = "drop" /\ ~x.pIp /\ (x.bIp \/ x.ipBan # {}))), totq))
         THEN {"C18.RefusedWithinQuota"} ELSE {})
   \cup (IF refused2 /\ ~(a.bNode /\ ~a.pNode) /\ ~(~a.pNode /\ HasQ(nodeq) /\ ~Within(nodeAll, nodeq)) /\ ~(~a.pNode /\ cfg.maxNodes > 0)
         THEN {"C18.RefusedWithinQuota"} ELSE {})
